@@ -369,6 +369,11 @@ def corrupt_cases(rng, base):
             digit_pos += [b + 1 + k for k in range(*mo.span(3))]
     for p in rng.sample(digit_pos, min(len(digit_pos), 6)):
         put(text[:p] + rng.choice("OlxAZ o") + text[p + 1:], "letter")
+    # the same-valued decimal digit of another script in one digit position (not the offset minutes, whose \d\d accepts them today)
+    minute_pos = set(b + 1 + k for k in range(*mo.span(3))) if (b >= 0 and mo.group(3)) else set()
+    foreign_pos = [q for q in digit_pos if q not in minute_pos]
+    for p in rng.sample(foreign_pos, min(len(foreign_pos), 5)):
+        put(text[:p] + foreign_digit(text[p], rng.choice(SCRIPT_ZEROS)) + text[p + 1:], "foreign-digit")
     # wrong length: one digit dropped or doubled inside the date/time digits, or the millisecond group
     p = rng.randrange(ndig)
     put(text[:p] + text[p + 1:], "wrong-length"); put(text[:p] + text[p] + text[p:], "wrong-length")
@@ -382,6 +387,27 @@ def corrupt_cases(rng, base):
         put(text[:-1], "bracket", False); put(text + "]", "bracket", False); put(text[:b] + text[b + 1:], "bracket", False)
         put(text[:b + 1] + "[" + text[b + 1:], "bracket", False); put(text.replace(".", "x"), "separator", False); put(text + "\n", "newline", False)
         put(text[:b + 1] + "-" + text[b + 1:], "bracket", False)
+    return out
+
+
+# zero of: full-width, Arabic-Indic, extended Arabic-Indic, Devanagari, Bengali, Thai, mathematical bold
+SCRIPT_ZEROS = [0xFF10, 0x0660, 0x06F0, 0x0966, 0x09E6, 0x0E50, 0x1D7CE]
+
+
+def foreign_digit(ch, zero):
+    return chr(zero + ord(ch) - 48)
+
+
+def foreign_digit_sweep():
+    """every digit position (offset minutes excepted) of fixed valid texts x every script: one ASCII digit replaced by the
+    same-valued decimal digit of that script; the text is outside the notation and must be rejected"""
+    out = []
+    for t, text, skip in (("dt", "20240229235907.120[-11.30:NST]", (23, 24)), ("dt", "19991231", ()), ("dt", "20111117033045[+5]", ()),
+                          ("tm", "033045.020[+1]", ()), ("tm", "235959", ()), ("tm", "101112.987[-10.45:X9]", (15, 16))):
+        for p, ch in enumerate(text):
+            if ch in "0123456789" and p not in skip and not (":" in text and p > text.index(":")):
+                for z in SCRIPT_ZEROS:
+                    out.append({"op": "conv", "t": t, "text": text[:p] + foreign_digit(ch, z) + text[p + 1:], "expect": "reject", "cls": "foreign-digit"})
     return out
 
 
@@ -507,6 +533,7 @@ def run(rep, tier, rng):
         if b["expect"] is not None:
             cases += corrupt_cases(rng, b)
     cases += misc_conv_cases(rng, list(U.TZS), thorough)
+    cases += foreign_digit_sweep()
     cases += bracket_enum_cases(rng, 5 if thorough else 3, 4000 if thorough else (4000 if deep else 600))
     # values: in-domain (1900-2200, whole minutes -12:00..+14:00) and beyond (years 1-9999, any whole-second offset)
     cases += [unconv_case(rng, False, True) for _ in range(3000 * scale)] + [unconv_case(rng, True, True) for _ in range(1000 * scale)]
@@ -535,7 +562,7 @@ def run(rep, tier, rng):
     rep.rule = ("corpus first; structured stream: calendar instants 1900-2200 (uniform + month/year ends, leap days, 23:59:59.999) x the four date-time / four time "
                 "notations + date only x whole-minute offsets -12:00..+14:00 rendered signed/unsigned, with/without .MM, zero-padded or not x arbitrary zone names, each "
                 "with the denoted instant computed from the generating fields by days-from-civil arithmetic; every listed single-field corruption of a sample "
-                "(month 13/00, day 00/32, hour 24, minute 60, second 61, a letter in each digit position, one digit dropped/doubled); aware values at "
+                "(month 13/00, day 00/32, hour 24, minute 60, second 61, a letter in each digit position, one ASCII digit replaced by the same-valued decimal digit of another script (7 scripts; every position but the offset minutes), one digit dropped/doubled); aware values at "
                 "sub-millisecond resolution incl. rounding edges x all 1561 whole-minute offsets x named/unnamed/name-less tzinfo, written, re-read by a strict "
                 "reader and by the library (round trip); naive values both ways. Beyond the property's domain (correspondence only): years 1-9999, "
                 "sub-minute offsets, quirk forms ([-:EST], any separator, trailing newline, non-ASCII decimal digits, int() digit limit), offset-bracket contents "
